@@ -242,6 +242,8 @@ TB_ICU_LAWS2 = "ICU laws idna_ascii_lower (Properties_C08.v) and idna_idem (Proo
 
 TB_SER = "Impl/Serializer.v: hand model of detail::url_serializer / detail::url_setter (replace_part, start_part / save_part, strp_ splice, path_seg_end_, shorten_path, adjust_path_prefix, clear_part / empty_part, strip); tied by the `ser` command: the same operation sequences on a real url_serializer / url_setter bound to a real url whose private members are set to the given values, every member compared after every operation (serops stream)"
 
+TB_TRACE = "settrace: the call sequence of the hash / search / port / username / password setters is observed on the real url_parser::url_parse through a logging subclass of detail::url_setter (virtual members only; set_flag is seen as an added flag bit, potentially_strip_trailing_spaces is not seen); the setters' own glue code is repeated in harness/driver.cpp and its effect compared with the real setter on a second object"
+
 PROPS = {
     "C13": P("proof", streams=["setapply"], proof_search=c13_search, premain=True,
         trusted_base=[
@@ -250,7 +252,7 @@ PROPS = {
         assumptions=["the four language modes are exercised with g++ 12.2 only"]),
     "C01": P("proof", model_variants=["spec", "impl"], streams=["parse", "parse_exhaustive"], trusted_base=TB_CORR + [TB_ICU_LAWS], coq_files=["Properties_C01_total.v", "Properties_C01.v"]),
     "C02": P("proof", model_variants=["spec", "impl"], streams=["reparse"], trusted_base=TB_CORR + [TB_ICU_LAWS2]),
-    "C03": P("proof", model_variants=["spec", "impl"], streams=["setters", "serops"], trusted_base=TB_CORR + [TB_ICU_LAWS, TB_SER], coq_files=["Properties_C03.v", "Properties_C03_serializer.v"]),
+    "C03": P("proof", model_variants=["spec", "impl"], streams=["setters", "serops", "settrace"], trusted_base=TB_CORR + [TB_ICU_LAWS, TB_SER, TB_TRACE], coq_files=["Properties_C03.v", "Properties_C03_serializer.v"]),
     "C05": P("proof", model_variants=["spec", "impl"], streams=["histories", "serops"], trusted_base=TB_CORR + [TB_ICU_LAWS, TB_ICU_LAWS2], coq_files=["Properties_C05.v", "Properties_C05_proto2.v", "Properties_C05_repr.v", "Properties_C06.v"]),
     "C06": P("proof", ["histories"], trusted_base=TB_CORR),
     "C07": P("proof", model_variants=["spec", "impl"], streams=["host"], trusted_base=TB_CORR + ["ICU laws H_ascii and H_keep (Properties_C07.v) are explicit premises of C07_host / C07_fastpath / C07_precheck; they are sampled against the real ICU by the host stream, not proved"]),
